@@ -260,6 +260,66 @@ def seg_twin(data: bytes, c1: int, c2: int, a: int, b: int) -> bool:
     return not (split[0] == "ok" and data[c1 - 1] == 13 and data[c1] == 10)
 
 
+# ---- end to end: the real RequestParser over concrete streams, every single cut + small double cuts + byte by byte ---------
+_PL = b"PROXY TCP4 192.168.0.1 192.168.0.11 56324 443\r\n"            # 47 bytes with its CRLF
+_G = b"GET /a?b=c HTTP/1.1\r\nHost: h\r\nX-A: 1\r\n\r\n"
+_CH = (b"POST /up HTTP/1.1\r\nHost: h\r\nTransfer-Encoding: chunked\r\n\r\n5 ;x=y\r\nhello\r\n3\r\nabc\r\n0\r\nT: v\r\n\r\n"
+       b"GET /next HTTP/1.1\r\nHost: h\r\n\r\n")
+_CL = b"POST /len HTTP/1.1\r\nHost: h\r\nContent-Length: 5\r\n\r\nhelloGET /after HTTP/1.1\r\nHost: h\r\n\r\n"
+REAL_STREAMS = [
+    (_PL + _G, {"proxy_protocol": True, "proxy_allow_ips": "*"}),
+    (_PL + _G, {"proxy_protocol": True, "proxy_allow_ips": "*", "limit_request_line": 40}),     # PROXY line longer than the limit
+    (_PL + _G, {"proxy_protocol": True, "proxy_allow_ips": "*", "limit_request_line": 46}),
+    (_G, {"proxy_protocol": True, "proxy_allow_ips": "*", "limit_request_line": 19}),           # request line exactly at / over the limit
+    (_CH, {}),
+    (_CL, {}),
+    (b"\r\n" + _G, {}),                                                                          # stray CRLF ahead of the request line
+    (b"GET / HTTP/1.1\r\nA: 1\r\n B\r\n\r\n", {}),                                                # obsolete folding: rejected wherever it is cut
+    (b"POST / HTTP/1.1\r\nTransfer-Encoding: chunked\r\n\r\n1\r\nab\r\n0\r\n\r\n", {}),            # missing chunk terminator
+]
+
+
+def _outcome(chunks, settings):
+    from gunicorn.http.parser import RequestParser
+    from engine.stubs import workers as WK
+    cfg = WK.make_cfg(**settings)
+    out = []
+    p = RequestParser(cfg, iter(list(chunks)), ("127.0.0.1", 5000))
+    try:
+        for _ in range(4):
+            req = next(p)
+            body = req.body.read()
+            out.append((req.method, req.uri, tuple(req.headers), tuple(req.trailers), body,
+                        tuple(sorted((req.proxy_protocol_info or {}).items()))))
+    except StopIteration:
+        out.append("end")
+    except Exception as e:                    # noqa: B902 - the class of the rejection is part of the observable outcome
+        out.append(type(e).__name__)
+    return out
+
+
+def seg_real(ti: int, c1: int, d: int) -> bool:
+    """
+    pre: 0 <= ti < len(REAL_STREAMS) and 0 <= d <= 3
+    pre: 1 <= c1 < len(REAL_STREAMS[CASE["ti"]][0])
+    pre: ti == CASE["ti"]
+    post: __return__
+    """
+    ti = CASE["ti"]
+    data, settings = REAL_STREAMS[ti]
+    n = len(data)
+    c1, d = pick(c1, 1, n - 1), pick(d, 0, 3)
+    if d == 3:
+        chunks = [data[i:i + 1] for i in range(n)] if c1 == 1 else None
+        if chunks is None:
+            return True
+    elif d == 0 or c1 + d >= n:
+        chunks = [data[:c1], data[c1:]]
+    else:
+        chunks = [data[:c1], data[c1:c1 + d], data[c1 + d:]]
+    return _outcome(chunks, settings) == _outcome([data], settings)
+
+
 def _case(kernel, n, cuts, a=(0, 0), b=(0, 0), **kw):
     d = {"kernel": kernel, "n": n, "cuts": cuts, "alo": a[0], "ahi": a[1], "blo": b[0], "bhi": b[1]}
     d.update(kw)
@@ -298,6 +358,10 @@ OBLIGATIONS = [
        bound="kernels {Unreader program, read_line, header-block scan, parse_chunk_size, chunked body via Body.read, "
              "parse_trailers, LengthReader via Body.read/readline}; data of 2..4/5 (thorough ..6) arbitrary bytes; 1-2 cuts "
              "at arbitrary positions; limits/sizes symbolic in small ranges"),
+    Ob("C06.seg_real", "seg_real", cases=[{"ti": i} for i in range(9)], timeout=900,
+       bound="the real RequestParser over 9 concrete streams (PROXY line with 3 request-line limits, request line at its limit, chunked "
+             "with extension / trailers / pipelined follower, Content-Length with follower, leading CRLF, folding, missing chunk CRLF): "
+             "every single cut, every cut followed by a 1- or 2-byte piece, and byte-by-byte, against the unsplit feed"),
     Ob("C06.seg.twin", "seg_twin", cases=[_case("read_line", 4, 1, a=(0, 3)), _case("head", 5, 1, a=(0, 3)),
                                           _case("chunk_size", 4, 1), _case("trailers", 4, 1),
                                           _case("length", 3, 1, a=(0, 4), b=(0, 4))],
